@@ -368,8 +368,16 @@ func (rc *rootCtx) callRoots(call *ssa.Call) *RootSet {
 	if b, ok := cc.Value.(*ssa.Builtin); ok {
 		switch b.Name() {
 		case "append":
-			for _, a := range cc.Args {
-				r.add(rc.roots(a))
+			// the result shares arg0's backing array; the appended element
+			// values are copied, so they matter only when they are themselves
+			// pointer-like
+			if len(cc.Args) > 0 {
+				r.add(rc.roots(cc.Args[0]))
+			}
+			if len(cc.Args) > 1 {
+				if sl, ok := cc.Args[1].Type().Underlying().(*types.Slice); ok && pointerLike(sl.Elem()) {
+					r.add(rc.roots(cc.Args[1]))
+				}
 			}
 		}
 		return r
